@@ -207,6 +207,11 @@ impl WireEncode for StandardPath {
             return Err("curr_hop_field exceeds total number of hop fields".into());
         }
 
+        // The current hop field index is a 6-bit field, a larger index would be encoded wrapped.
+        if self.current_hop_field > 63 {
+            return Err("curr_hop_field exceeds maximum encodeable value of 63".into());
+        }
+
         if self.current_info_field as usize >= self.info_field_count() {
             return Err("current_info_field exceeds total number of info fields".into());
         }
@@ -240,6 +245,8 @@ impl WireEncode for StandardPath {
         unsafe {
             unchecked_bit_range_be_write(buf, SL::CURR_INFO_FIELD_RNG, self.current_info_field);
             unchecked_bit_range_be_write(buf, SL::CURR_HOP_FIELD_RNG, self.current_hop_field);
+            // The reserved bits have to be written too, the buffer is not necessarily zeroed
+            unchecked_bit_range_be_write(buf, SL::RSV_RNG, 0u8);
             unchecked_bit_range_be_write(buf, SL::SEG0_LEN_RNG, seg0);
             unchecked_bit_range_be_write(buf, SL::SEG1_LEN_RNG, seg1);
             unchecked_bit_range_be_write(buf, SL::SEG2_LEN_RNG, seg2);
